@@ -28,7 +28,8 @@ Record sim (c : cfg) (s : state) (sp : sp_state) : Prop := mkSim {
   sim_closed : closed s = sp_closed sp;
   sim_fail : sp_failing sp = false -> failn s = O;
   sim_loops : map loop_view (loops s) = sp_loops sp;
-  sim_wf : forall i lp, nth_error (loops s) i = Some lp -> pc_wf c lp
+  sim_wf : forall i lp, nth_error (loops s) i = Some lp -> pc_wf c lp;
+  sim_rxq : rxq s = map (spoof_reply c) (sp_rxq sp)
 }.
 
 Lemma mem_filter_neq x m l : mem x (filter (fun y => negb (y =? m)) l) = negb (x =? m) && mem x l.
@@ -105,11 +106,18 @@ Proof. intros H. unfold wr. rewrite H. simpl. auto. Qed.
 Lemma wr2_failn0 s f : failn s = O -> failn (fst (wr2 s f)) = O /\ snd (wr2 s f) = [f].
 Proof. intros H. unfold wr2. apply wr_failn0; auto. Qed.
 
-Lemma scan_failn0 c ips : forall s, failn s = O -> failn (fst (scan_go c s ips)) = O.
+Lemma scan_check_failn c s j : failn (fst (scan_check c s j)) = failn s.
+Proof. apply (scan_check_spec c s j). Qed.
+
+Lemma scan_send_failn0 c s j : failn s = O -> failn (fst (scan_send c s j)) = O.
 Proof.
-  induction ips as [|ip r IH]; intros s H; simpl; auto.
-  destruct (_ || _); auto. destruct (closed s); auto.
-  unfold wr. rewrite H. simpl. specialize (IH s H). destruct (scan_go c s r); simpl in *; auto.
+  intros H. unfold scan_send. destruct (nth_error (scans s) j) as [[ips d]|]; auto. destruct d; auto.
+  unfold wr. rewrite H. simpl. exact H.
+Qed.
+
+Lemma rx_reply_failn0 s k : failn s = O -> failn (fst (rx_reply s k)) = O.
+Proof.
+  intros H. unfold rx_reply. destruct (nth_error (rxq s) k); auto. unfold wr. rewrite H. simpl. exact H.
 Qed.
 
 Lemma whois_failn0 c ip n : forall s, failn s = O -> failn (fst (whois_go c s ip n)) = O.
@@ -136,34 +144,44 @@ Proof. unfold sp_is_restore, restore. simpl. rewrite !N.eqb_refl. reflexivity. Q
 
 (* the receive path is accepted *)
 Lemma sp_rx_ok c s sp p :
-  sim c s sp -> sp_rx c sp p (snd (step c s (RxArp p))) = [].
+  sim c s sp ->
+  exists sp', sp_rx c sp p (snd (step c s (RxArp p))) = (sp', []) /\
+    (sp' = sp \/ sp' = sp_set_rxq (sp_rxq sp ++ [p]) sp) /\
+    rxq (fst (step c s (RxArp p))) = map (spoof_reply c) (sp_rxq sp').
 Proof.
   intros R. rewrite rx_spec. unfold rx_answer, sp_rx.
-  rewrite <- (sim_closed _ _ _ R). destruct (closed s); [reflexivity|].
+  pose proof (sim_closed _ _ _ R) as Hcl. pose proof (sim_rxq _ _ _ R) as Hq.
+  destruct (closed s); rewrite <- Hcl; [exists sp; simpl; auto|].
   unfold sp_probe_reject_due. rewrite <- (sim_offer _ _ _ R), <- (sim_hunt _ _ _ R).
   destruct (sp_is_probe p).
-  - destruct (sp_reject_cond c (offer_of (psmac p) (offers s)) p); [|reflexivity].
-    destruct (out_cases s (probe_reject c p)) as [E|[E F]]; rewrite E.
-    + unfold sp_is_reply_to, probe_reject. simpl. rewrite !N.eqb_refl. reflexivity.
-    + rewrite (failing_of_failn c s sp R F). reflexivity.
-  - destruct (sp_asks_router c p && hunted s (psmac p)); [|reflexivity].
-    destruct (out_cases s (spoof_reply c p)) as [E|[E F]]; rewrite E.
-    + unfold sp_is_reply_to, spoof_reply. simpl. rewrite !N.eqb_refl. reflexivity.
-    + rewrite (failing_of_failn c s sp R F). reflexivity.
+  - destruct (sp_reject_cond c (offer_of (psmac p) (offers s)) p); [|exists sp; simpl; auto].
+    exists sp. split.
+    + f_equal. destruct (out_cases s (probe_reject c p)) as [E|[E F]]; rewrite E.
+      * unfold sp_is_reply_to, probe_reject. simpl. rewrite !N.eqb_refl. reflexivity.
+      * rewrite (failing_of_failn c s sp R F). reflexivity.
+    + split; auto. destruct (wr2_aux s (probe_reject c p)) as [Q _]. rewrite Q. exact Hq.
+  - destruct (sp_asks_router c p && hunted s (psmac p)); [|exists sp; simpl; auto].
+    eexists. split; [reflexivity|]. split; [right; reflexivity|]. simpl.
+    rewrite map_app. simpl. rewrite Hq. reflexivity.
 Qed.
+
+Lemma sim_queue c s sp q q' :
+  sim c s sp -> q = map (spoof_reply c) q' -> sim c (set_rxq s q) (sp_set_rxq q' sp).
+Proof. intros R H. constructor; simpl; try apply R. exact H. Qed.
 
 (* events that change nothing the monitor tracks except possibly consuming refused writes *)
 Lemma sim_same c s s' sp :
   sim c s sp -> hunt s' = hunt s -> loops s' = loops s -> closed s' = closed s -> offers s' = offers s ->
-  (failn s = O -> failn s' = O) -> sim c s' sp.
+  (failn s = O -> failn s' = O) -> rxq s' = rxq s -> sim c s' sp.
 Proof.
-  intros R H1 H2 H3 H4 H5. constructor.
+  intros R H1 H2 H3 H4 H5 H6. constructor.
   - intros m. unfold hunted. rewrite H1. apply (sim_hunt _ _ _ R).
   - intros m. rewrite H4. apply (sim_offer _ _ _ R).
   - rewrite H3. apply (sim_closed _ _ _ R).
   - intros F. apply H5. apply (sim_fail _ _ _ R F).
   - rewrite H2. apply (sim_loops _ _ _ R).
   - intros i lp. rewrite H2. apply (sim_wf _ _ _ R).
+  - rewrite H6. apply (sim_rxq _ _ _ R).
 Qed.
 
 Lemma api_ok c s sp e :
@@ -177,24 +195,52 @@ Proof.
     destruct (sp_forged c f) eqn:Hf; auto.
     assert (caller_forged c e = true) by (apply (api_forges_iff c s e f Hc Ha Hin); exact Hf).
     assert (caller_forged c e = sp_caller_forged c e) by (destruct e; reflexivity). congruence.
-  - destruct e; try discriminate; simpl.
-    + destruct (wr2_state s (request_to c MAC_BCAST ip)) as [H1 [H2 [H3 H4]]].
-      apply (sim_same c s _ sp R H1 H2 H3 H4). intros F. apply wr2_failn0; auto.
-    + destruct (wr2_state s (request_to c dst ip)) as [H1 [H2 [H3 H4]]].
-      apply (sim_same c s _ sp R H1 H2 H3 H4). intros F. apply wr2_failn0; auto.
-    + destruct (wr2_state s (probe_frame c ip)) as [H1 [H2 [H3 H4]]].
-      apply (sim_same c s _ sp R H1 H2 H3 H4). intros F. apply wr2_failn0; auto.
-    + destruct (wr2_state s (announce_ip c dst ip)) as [H1 [H2 [H3 H4]]].
-      apply (sim_same c s _ sp R H1 H2 H3 H4). intros F. apply wr2_failn0; auto.
-    + destruct (wr2_state s (request_raw dst sender target)) as [H1 [H2 [H3 H4]]].
-      apply (sim_same c s _ sp R H1 H2 H3 H4). intros F. apply wr2_failn0; auto.
-    + destruct (wr2_state s (reply_raw dst sender target)) as [H1 [H2 [H3 H4]]].
-      apply (sim_same c s _ sp R H1 H2 H3 H4). intros F. apply wr2_failn0; auto.
-    + destruct (scan_go_spec c (scan_ips c) s) as [_ [H1 [H2 [H3 H4]]]].
-      apply (sim_same c s _ sp R H1 H2 H3 H4). intros F. apply scan_failn0; auto.
-    + destruct (whois_go_spec c ip (Nat.min tries 3) s) as [_ [H1 [H2 [H3 H4]]]].
-      apply (sim_same c s _ sp R H1 H2 H3 H4). intros F. apply whois_failn0; auto.
+  - assert (Hce : core_event e = true) by (destruct e; try discriminate; reflexivity).
+    destruct (step_core c s e Hce) as [H1 [H2 [H3 H4]]]. pose proof (step_rxq c s e) as HQ.
+    apply (sim_same c s _ sp R H1 H2 H3 H4).
+    + intros F. destruct e; try discriminate; simpl; auto; try (apply wr2_failn0; exact F).
+      * rewrite scan_check_failn. exact F.
+      * apply scan_send_failn0. exact F.
+      * apply whois_failn0. exact F.
+    + destruct e; try discriminate; exact HQ.
 Qed.
+
+Lemma sim_core c s s' sp sp' :
+  sim c s sp -> hunt s' = hunt s -> loops s' = loops s -> closed s' = closed s -> offers s' = offers s ->
+  (failn s = O -> failn s' = O) ->
+  sp_hunted sp' = sp_hunted sp -> sp_hist sp' = sp_hist sp -> sp_closed sp' = sp_closed sp ->
+  sp_failing sp' = sp_failing sp -> sp_loops sp' = sp_loops sp ->
+  rxq s' = map (spoof_reply c) (sp_rxq sp') -> sim c s' sp'.
+Proof.
+  intros R H1 H2 H3 H4 H5 G1 G2 G3 G4 G5 H6. constructor.
+  - intros m. unfold hunted. rewrite H1, G1. apply (sim_hunt _ _ _ R).
+  - intros m. rewrite H4, G2. apply (sim_offer _ _ _ R).
+  - rewrite H3, G3. apply (sim_closed _ _ _ R).
+  - rewrite G4. intros F. apply H5. apply (sim_fail _ _ _ R F).
+  - rewrite H2, G5. apply (sim_loops _ _ _ R).
+  - intros i lp. rewrite H2. apply (sim_wf _ _ _ R).
+  - exact H6.
+Qed.
+
+Lemma rx_arp_failn0 c s p : failn s = O -> failn (fst (rx_arp c s p)) = O.
+Proof.
+  intros F. destruct (rx_arp_cases c s p) as [E|[[_ [_ [_ E]]]|[_ [_ E]]]]; rewrite E; simpl; auto.
+  apply wr2_failn0; auto.
+Qed.
+
+Lemma sim_rx c s sp p :
+  sim c s sp ->
+  exists sp', sp_rx c sp p (snd (step c s (RxArp p))) = (sp', []) /\ sim c (fst (step c s (RxArp p))) sp'.
+Proof.
+  intros R. destruct (sp_rx_ok c s sp p R) as [sp' [E [Hsp Hq]]]. exists sp'. split; auto.
+  destruct (rx_arp_state c s p) as [H1 [H2 [H3 H4]]].
+  apply (sim_core c s _ sp sp' R H1 H2 H3 H4 (rx_arp_failn0 c s p)); auto;
+    destruct Hsp as [->| ->]; reflexivity.
+Qed.
+
+Lemma nth_error_remove_map {A B} (f : A -> B) k (l : list A) :
+  remove_nth k (map f l) = map f (remove_nth k l).
+Proof. unfold remove_nth. rewrite map_app, firstn_map, skipn_map. reflexivity. Qed.
 
 Lemma nth_view (l : list loop) i :
   nth_error (map loop_view l) i = option_map loop_view (nth_error l i).
@@ -296,20 +342,29 @@ Proof.
               apply (sim_set_pc c (set_failn s k) sp i lp PDone Rk Hl). exact I.
     + inversion Hs; subst. eexists; split; [reflexivity|exact R].
   - (* RxArp *)
-    pose proof (sp_rx_ok c s sp p R) as Hok. rewrite Hs in Hok. simpl in Hok.
-    exists sp. split; [unfold sp_step; rewrite Hok; reflexivity|].
-    pose proof (f_equal fst Hs) as Hs1. simpl in Hs1. subst s'.
-    destruct (rx_arp_state c s p) as [H1 [H2 [H3 H4]]].
-    apply (sim_same c s _ sp R H1 H2 H3 H4). intros F.
-    destruct (rx_arp_cases c s p) as [E|[[_ [_ [_ E]]]|[_ [_ E]]]]; rewrite E; simpl; auto; apply wr2_failn0; auto.
+    destruct (sim_rx c s sp p R) as [sp' [E Rn]]. rewrite Hs in E, Rn. simpl in E, Rn.
+    exists sp'. split; [unfold sp_step; exact E|exact Rn].
+  - (* RxReply *)
+    simpl in Hs. unfold sp_step.
+    pose proof (sim_rxq _ _ _ R) as Hq.
+    destruct (nth_error (sp_rxq sp) k) as [p|] eqn:Hk.
+    + assert (Hk' : nth_error (rxq s) k = Some (spoof_reply c p)) by (rewrite Hq, nth_error_map, Hk; reflexivity).
+      unfold rx_reply in Hs. rewrite Hk' in Hs.
+      destruct (wr s (spoof_reply c p)) as [[s1 o] ok] eqn:Hw. inversion Hs; subst s' out; clear Hs.
+      destruct (wr_state _ _ _ _ _ Hw) as [W1 [W2 [W3 W4]]]. destruct (wr_state2 _ _ _ _ _ Hw) as [W5 _].
+      eexists. split.
+      * f_equal. destruct (wr_cases s (spoof_reply c p)) as [[E _]|[k0 [F0 E]]]; rewrite E in Hw; inversion Hw; subst.
+        -- unfold sp_is_reply_to, spoof_reply. simpl. rewrite !N.eqb_refl. reflexivity.
+        -- rewrite (failing_of_failn c s sp R); [reflexivity|lia].
+      * apply (sim_core c s _ sp _ R); simpl; auto.
+        -- intros F. destruct (wr_cases s (spoof_reply c p)) as [[E _]|[k0 [F0 E]]]; rewrite E in Hw; inversion Hw; subst; simpl; auto. lia.
+        -- rewrite W5, Hq. apply nth_error_remove_map.
+    + assert (Hk' : nth_error (rxq s) k = None) by (rewrite Hq, nth_error_map, Hk; reflexivity).
+      unfold rx_reply in Hs. rewrite Hk' in Hs. inversion Hs; subst. exists sp. split; [reflexivity|exact R].
   - (* RxRaw *)
     rewrite raw_spec in Hs. unfold sp_step. destruct (sp_decode ethertype payload) as [p|].
-    + pose proof (sp_rx_ok c s sp p R) as Hok. rewrite Hs in Hok. simpl in Hok.
-      exists sp. split; [rewrite Hok; reflexivity|].
-      pose proof (f_equal fst Hs) as Hs1. simpl in Hs1. subst s'.
-      destruct (rx_arp_state c s p) as [H1 [H2 [H3 H4]]].
-      apply (sim_same c s _ sp R H1 H2 H3 H4). intros F.
-      destruct (rx_arp_cases c s p) as [E|[[_ [_ [_ E]]]|[_ [_ E]]]]; rewrite E; simpl; auto; apply wr2_failn0; auto.
+    + destruct (sim_rx c s sp p R) as [sp' [E Rn]]. rewrite Hs in E, Rn. simpl in E, Rn.
+      exists sp'. split; [exact E|exact Rn].
     + inversion Hs; subst. exists sp. split; [reflexivity|exact R].
   - (* SetOffer *)
     simpl in Hs. inversion Hs; subst; clear Hs. unfold sp_step. rewrite check_own_nil.
@@ -319,6 +374,8 @@ Proof.
     simpl in Hs. inversion Hs; subst; clear Hs. unfold sp_step. rewrite check_own_nil.
     eexists; split; [reflexivity|]. constructor; simpl; try apply R.
     destruct k; [reflexivity|discriminate].
+  - (* ApiInvalid *)
+    simpl in Hs. inversion Hs; subst. exists sp. split; [reflexivity|exact R].
 Qed.
 
 Lemma sim_init c : sim c init_state sp_init.
